@@ -65,7 +65,10 @@ def smap_cases(rng, i):
             "sourceless2.map": json.dumps({"version": 3, "sources": ["o.ts", "p.ts"], "names": [], "mappings": "A,Q,Q,Q,Q"})}
     name = rng.choice(list(maps))
     file = rng.choice(FILES)
-    url = rng.choice([name, "./" + name, "/abs/" + name, "sub/" + name, "../" + name])
+    url = rng.choice([name, "./" + name, "/abs/" + name, "sub/" + name, "../" + name,
+                      # percent signs, escapes and multi-byte characters in the reference
+                      "100%\u5b8c\u6210.js.map", "%\u00e9.map", "a%2", "%", "%zz.map", "%E4%BD%A0.map", "x%\U0001F600.map", "my%20bundle.js.map", "%2\u00e9", "\u00e9%41\u00e9.map",
+                      name + "?v=%\u65e5", "%" + name, "a b/" + name, name + "#frag", "file:///abs/" + name, "\\\\server\\share\\" + name, "\u202e" + name, name + "\x00"])
     fs = {}
     for folder in ("", "dir", "/abs", "/abs/dir", "sub", "dir/sub", "/"):
         fs[os.path.join(folder, name)] = {"data": maps[name]} if rng.random() < 0.8 else {"err": "EACCES"}
